@@ -544,7 +544,8 @@ var c18Inputs = []string{"0\n", "1\n0\n2\n"}
 
 type c18Case struct {
 	Src     string `json:"src"`
-	Split   int    `json:"split"` // number of lines in the first -f file; 0 = one file
+	Split   int    `json:"split"`            // number of lines in the first -f file; 0 = one file
+	Split2  int    `json:"split2,omitempty"` // > Split: three -f files, the second ends before this line index
 	Mode    string `json:"mode"`
 	Product int    `json:"product,omitempty"` // 0 full, 1 mid, 2 min
 	Step    int    `json:"step"`              // run of the sequence in which the failure was seen (informational)
@@ -668,7 +669,7 @@ type c18ProgInfo struct {
 	plainOK bool
 }
 
-func (r *c18Runner) writeFiles(lines []string, split int) []c18File {
+func (r *c18Runner) writeFiles(lines []string, split int, split2s ...int) []c18File {
 	join := func(ls []string, nl bool) []byte {
 		s := strings.Join(ls, "\n")
 		if nl {
@@ -681,6 +682,10 @@ func (r *c18Runner) writeFiles(lines []string, split int) []c18File {
 		files = []c18File{{filepath.Join(r.dir, "prog.awk"), lines, 0}}
 	} else {
 		files = []c18File{{filepath.Join(r.dir, "a.awk"), lines[:split], 0}, {filepath.Join(r.dir, "b.awk"), lines[split:], split}}
+	}
+	if len(split2s) > 0 && split2s[0] > split && split != 0 {
+		s2 := split2s[0]
+		files = []c18File{{filepath.Join(r.dir, "a.awk"), lines[:split], 0}, {filepath.Join(r.dir, "b.awk"), lines[split:s2], split}, {filepath.Join(r.dir, "c.awk"), lines[s2:], s2}}
 	}
 	for i, f := range files {
 		// the trailing newline of a source file is optional: alternate
@@ -731,9 +736,13 @@ func (r *c18Runner) prepare(src string) (*c18ProgInfo, string) {
 
 // sequence runs the coverage runs of one (mode, split) on a shared profile file
 // and checks every oracle.
-func (r *c18Runner) sequence(pi *c18ProgInfo, mode string, split int, product int, feature string) {
+func (r *c18Runner) sequence(pi *c18ProgInfo, mode string, split int, product int, feature string, split2s ...int) {
 	c := r.c
-	files := r.writeFiles(pi.lines, split)
+	files := r.writeFiles(pi.lines, split, split2s...)
+	split2 := 0
+	if len(files) == 3 {
+		split2 = split2s[0]
+	}
 	prof := filepath.Join(r.dir, "prof.out")
 	// the profile either does not exist or holds stale content that must be overwritten
 	if split%2 == 0 {
@@ -752,10 +761,13 @@ func (r *c18Runner) sequence(pi *c18ProgInfo, mode string, split int, product in
 	if split != 0 && product == c18Min {
 		steps = []step{{1, false}}
 	}
+	if split2 != 0 {
+		steps = []step{{1, false}, {0, true}}
+	}
 	src := strings.Join(pi.lines, "\n")
 	prev := ""
 	for si, st := range steps {
-		cs := c18Case{Src: src, Split: split, Mode: mode, Product: product, Step: si, Feature: feature}
+		cs := c18Case{Src: src, Split: split, Split2: split2, Mode: mode, Product: product, Step: si, Feature: feature}
 		got := r.exec(c18Spec{files: files, in: st.in, mode: mode, append: st.append, prof: prof})
 		c.Add("transitions", 1)
 		plain := pi.plain[st.in]
@@ -877,8 +889,8 @@ func (r *c18Runner) checkBlocks(pi *c18ProgInfo, files []c18File, cs c18Case, ta
 		}
 		if !endOK || !ordered {
 			// is the end position a position of the *other* file (a block that runs across the file boundary)?
-			if len(files) == 2 && fi == 0 && inFile(files[1], b.el, b.ec) {
-				once("block-spans-two-files", fmt.Sprintf("block %q: start is in a.awk (%d lines), end line/column are those of b.awk; %s", row, len(f.lines), ctx))
+			if fi+1 < len(files) && inFile(files[fi+1], b.el, b.ec) {
+				once("block-spans-two-files", fmt.Sprintf("block %q: start is in one file (%d lines), end line/column are those of the next; %s", row, len(f.lines), ctx))
 			} else if !endOK {
 				once("block-end-outside-file "+tag, fmt.Sprintf("block %q (file has %d lines); %s", row, len(f.lines), ctx))
 			} else {
@@ -988,7 +1000,7 @@ func (r *c18Runner) evalProgram(src string, product int, feature string, only *c
 		}
 	}
 	if only != nil {
-		r.sequence(pi, only.Mode, only.Split, only.Product, only.Feature)
+		r.sequence(pi, only.Mode, only.Split, only.Product, only.Feature, only.Split2)
 		return
 	}
 	for split := 0; split < len(pi.lines); split++ {
@@ -997,6 +1009,16 @@ func (r *c18Runner) evalProgram(src string, product int, feature string, only *c
 				continue
 			}
 			r.sequence(pi, mode, split, product, feature)
+		}
+	}
+	// three -f files: every pair of line boundaries (a statement may start in the
+	// second file and end in the third), count mode, input 2 fresh then input 1 appended
+	if product == c18Full {
+		for split := 1; split < len(pi.lines); split++ {
+			for split2 := split + 1; split2 < len(pi.lines); split2++ {
+				r.sequence(pi, "count", split, product, feature, split2)
+				c.Add("three_file_splits", 1)
+			}
 		}
 	}
 }
@@ -1119,6 +1141,7 @@ func init() {
 			"plus the pattern-only rule and empty actions (n=0). Level A: one rule, n<=2 (thorough n<=3), layouts K&R multi-line / brace-less single-statement bodies and ';' empty bodies / one line per rule; " +
 			"level B: every ordered pair of rule kinds with (a,b) statements, a+b<=1 and (1,1) for the interacting pairs (thorough: all a+b<=2); level C: function body with n=3, one line per statement (thorough: also n=4 without for/for-in). " +
 			"Every program x 2 inputs (stdin and -v p, which flips every if condition) x {set,count} x {one -f file, two -f files split at every line boundary} x append {off, on: a second run with -coverappend on the same profile}; " +
+			"fully explored levels also: three -f files at every pair of line boundaries x count mode x {input 2 fresh, input 1 appended}; " +
 			"full product for levels A and B (thorough A n=3 / B a+b=2 in K&R layout and level C n=3: split files x both modes x {input 1 fresh, input 2 appended}; thorough C n=4: split files x {count, input 2, append off}). " +
 			"state = one program text, transition = one goawk process run with -coverprofile; " +
 			"each transition is compared with the run without coverage (stdout, status) and every line of its profile with the file contents, the parsed statement lists and the reference evaluator's per-statement execution counts; distinct = distinct (profile, stdout, status)",
